@@ -73,6 +73,77 @@ func applyMutant(repo string, m Mutant) (map[string]string, string) {
 	return map[string]string{abs: out}, ""
 }
 
+// seedMutants turns every confirmed seeded change of the property (/verif/seeded/<id>/patch.diff, written by
+// independent sub-agents) into an overlay mutant: the patch is applied with patch(1) to temporary copies of the files
+// it touches; the repository itself is never modified. A patch that no longer applies is skipped.
+type seedMeta struct {
+	ID       string `json:"id"`
+	Property string `json:"property"`
+	Change   string `json:"change"`
+}
+
+func seedOverlays(verif, repo, property string) (names []string, overlays []map[string]string, skipped []string) {
+	dirs, _ := filepath.Glob(filepath.Join(verif, "seeded", "*", "meta.json"))
+	sort.Strings(dirs)
+	for _, mf := range dirs {
+		b, err := os.ReadFile(mf)
+		if err != nil {
+			continue
+		}
+		var sm seedMeta
+		if json.Unmarshal(b, &sm) != nil || sm.Property != property {
+			continue
+		}
+		patch := filepath.Join(filepath.Dir(mf), "patch.diff")
+		pb, err := os.ReadFile(patch)
+		if err != nil {
+			continue
+		}
+		var files []string
+		for _, line := range strings.Split(string(pb), "\n") {
+			if strings.HasPrefix(line, "+++ b/") {
+				files = append(files, strings.TrimSpace(strings.TrimPrefix(line, "+++ b/")))
+			}
+		}
+		tmp, err := os.MkdirTemp("", "rendlint-seed-*")
+		if err != nil {
+			continue
+		}
+		ok := true
+		for _, f := range files {
+			dst := filepath.Join(tmp, f)
+			os.MkdirAll(filepath.Dir(dst), 0o755)
+			if src, err := os.ReadFile(filepath.Join(repo, f)); err == nil {
+				os.WriteFile(dst, src, 0o644)
+			}
+		}
+		cmd := exec.Command("patch", "-p1", "-s", "-f", "-d", tmp, "-i", patch)
+		if out, err := cmd.CombinedOutput(); err != nil {
+			ok = false
+			_ = out
+		}
+		ov := map[string]string{}
+		if ok {
+			for _, f := range files {
+				nb, err := os.ReadFile(filepath.Join(tmp, f))
+				if err != nil {
+					ok = false
+					break
+				}
+				ov[filepath.Join(repo, f)] = string(nb)
+			}
+		}
+		os.RemoveAll(tmp)
+		if !ok {
+			skipped = append(skipped, sm.ID)
+			continue
+		}
+		names = append(names, sm.ID)
+		overlays = append(overlays, ov)
+	}
+	return
+}
+
 func runObligations(o opts, overlayFile string) ([]*core.Obligation, error) {
 	self, err := os.Executable()
 	if err != nil {
@@ -114,10 +185,6 @@ func selfValidate(o opts) map[string]interface{} {
 		res["error"] = err.Error()
 		return res
 	}
-	if len(ms) == 0 {
-		res["mutants_applied"] = 0
-		return res
-	}
 	base, err := runObligations(o, "")
 	if err != nil {
 		res["error"] = "baseline: " + err.Error()
@@ -127,9 +194,38 @@ func selfValidate(o opts) map[string]interface{} {
 	type outcome struct {
 		Name, Kind, Result, Detail string
 	}
-	outs := make([]outcome, len(ms))
+	names, seedOvs, seedSkipped := seedOverlays(o.verif, o.repo, o.property)
+	outs := make([]outcome, len(ms)+len(seedOvs))
 	sem := make(chan struct{}, 6)
 	var wg sync.WaitGroup
+	// evaluate applies one overlay in a fresh subprocess and lists the obligations that fail with it and not without
+	evaluate := func(ov map[string]string) (fresh []string, rules map[string]bool, broken string, err error) {
+		f, _ := os.CreateTemp("", "rendlint-overlay-*.json")
+		b, _ := json.Marshal(ov)
+		f.Write(b)
+		f.Close()
+		defer os.Remove(f.Name())
+		obs, err := runObligations(o, f.Name())
+		if err != nil {
+			return nil, nil, "", err
+		}
+		rules = map[string]bool{}
+		for k, ob := range bad(obs) {
+			if _, was := baseBad[k]; was {
+				continue
+			}
+			if ob.Rule == "R0" {
+				broken = ob.Detail
+			}
+			fresh = append(fresh, ob.Rule+" "+ob.Key)
+			rules[ob.Rule] = true
+		}
+		sort.Strings(fresh)
+		if len(broken) > 160 {
+			broken = broken[:160]
+		}
+		return
+	}
 	for i, m := range ms {
 		wg.Add(1)
 		go func(i int, m Mutant) {
@@ -141,36 +237,13 @@ func selfValidate(o opts) map[string]interface{} {
 				outs[i] = outcome{m.Name, m.Kind, "skipped", why}
 				return
 			}
-			f, _ := os.CreateTemp("", "rendlint-overlay-*.json")
-			b, _ := json.Marshal(ov)
-			f.Write(b)
-			f.Close()
-			defer os.Remove(f.Name())
-			obs, err := runObligations(o, f.Name())
+			fresh, rules, broken, err := evaluate(ov)
 			if err != nil {
 				outs[i] = outcome{m.Name, m.Kind, "error", err.Error()}
 				return
 			}
-			var fresh []string
-			hit := false
-			broken := ""
-			for k, ob := range bad(obs) {
-				if _, was := baseBad[k]; was {
-					continue
-				}
-				if ob.Rule == "R0" {
-					broken = ob.Detail
-				}
-				fresh = append(fresh, ob.Rule+" "+ob.Key)
-				if ob.Rule == m.Expect {
-					hit = true
-				}
-			}
-			sort.Strings(fresh)
+			hit := rules[m.Expect]
 			if broken != "" {
-				if len(broken) > 160 {
-					broken = broken[:160]
-				}
 				outs[i] = outcome{m.Name, m.Kind, "skipped", "does not compile: " + broken}
 				return
 			}
@@ -192,15 +265,39 @@ func selfValidate(o opts) map[string]interface{} {
 			}
 		}(i, m)
 	}
+	for j := range seedOvs {
+		wg.Add(1)
+		go func(i int, name string, ov map[string]string) {
+			defer wg.Done()
+			sem <- struct{}{}
+			defer func() { <-sem }()
+			fresh, _, broken, err := evaluate(ov)
+			switch {
+			case err != nil:
+				outs[i] = outcome{name, "seed", "error", err.Error()}
+			case broken != "":
+				outs[i] = outcome{name, "seed", "skipped", "does not compile: " + broken}
+			case len(fresh) > 0:
+				outs[i] = outcome{name, "seed", "detected", strings.Join(fresh, "; ")}
+			default:
+				outs[i] = outcome{name, "seed", "MISSED", ""}
+			}
+		}(len(ms)+j, names[j], seedOvs[j])
+	}
 	wg.Wait()
-	applied, detected, vApplied, vSilent := 0, 0, 0, 0
+	applied, detected, vApplied, vSilent, sApplied, sDetected := 0, 0, 0, 0, 0, 0
 	var list []map[string]string
 	for _, oc := range outs {
 		list = append(list, map[string]string{"name": oc.Name, "kind": oc.Kind, "result": oc.Result, "detail": oc.Detail})
 		if oc.Result == "skipped" || oc.Result == "error" {
 			continue
 		}
-		if oc.Kind == "variant" {
+		if oc.Kind == "seed" {
+			sApplied++
+			if oc.Result == "detected" {
+				sDetected++
+			}
+		} else if oc.Kind == "variant" {
 			vApplied++
 			if oc.Result == "silent" {
 				vSilent++
@@ -216,6 +313,9 @@ func selfValidate(o opts) map[string]interface{} {
 	res["mutants_detected"] = detected
 	res["variants_applied"] = vApplied
 	res["variants_silent"] = vSilent
+	res["seeded_changes_applied"] = sApplied
+	res["seeded_changes_detected"] = sDetected
+	res["seeded_changes_skipped"] = seedSkipped
 	res["outcomes"] = list
 	return res
 }
@@ -225,7 +325,7 @@ func mutantsCmd(args []string) int {
 	sv := selfValidate(o)
 	b, _ := json.MarshalIndent(sv, "", " ")
 	fmt.Println(string(b))
-	if sv["mutants_applied"] != sv["mutants_detected"] || sv["variants_applied"] != sv["variants_silent"] {
+	if sv["mutants_applied"] != sv["mutants_detected"] || sv["variants_applied"] != sv["variants_silent"] || sv["seeded_changes_applied"] != sv["seeded_changes_detected"] {
 		return 1
 	}
 	return 0
